@@ -3,7 +3,7 @@
 Tie: (1) translator/excludes.py regenerates Gen/Excludes.lean from Scanner.DEFAULT_EXCLUDES
 (pinned by C11.default_excludes_pinned); (2) real directory trees (hidden, built-in-excluded,
 ordinary names, depth <= 4; supported / unsupported / no extension; Latin-1, malformed and empty
-files) x exclusion patterns of the five unambiguous gitignore classes x source of the patterns
+files) x exclusion patterns of the six unambiguous gitignore classes (bare name, dir/, *.ext, a/b, a/*, /a) x source of the patterns
 (option, .codelimit.yml, root .gitignore, mixed) x form of the root argument (absolute, relative,
 `.`, with `..`): the REAL `scan_path` (with `_analyze_file` wrapped) is compared with the model
 `CL.Sel.scanPath` run on a snapshot of the same directory, the oracles answered by the real
@@ -28,7 +28,7 @@ TRUSTED = [
 ASSUMPTIONS = [
     "the tree is a snapshot of a real directory: names non-empty, without '/', unique per directory; no symbolic links to directories; the tree does not change during the scan",
     "Pygments chooses the lexer from the base name only (no `code` argument is passed)",
-    "built-in exclusions are the 26 patterns of the pinned commit (Appendix A); exclusion lists are drawn from the five unambiguous gitignore classes",
+    "built-in exclusions are the 26 patterns of the pinned commit (Appendix A); exclusion lists are drawn from the six unambiguous gitignore classes (bare name, dir/, *.ext, a/b, a/*, /a)",
     "an exception raised by the analysis of a qualifying file aborts the scan (C03 is about when that can happen)",
 ]
 FORMS = ["abs", "rel", "dot", "dotdot", "dotdot_abs", "sub_dotdot"]
